@@ -23,3 +23,5 @@ for T in ec rsa; do
   rm -f t.csr
 done
 rm -f x.cnf *.srl
+# (added) self-signed end-entity certificates for "localhost", valid 2020-2045: selfsigned_{rsa,ec}.{key,pem}
+#   openssl req -new -key selfsigned_$T.key -subj "/C=FI/O=Verif Org/CN=localhost" ... ; openssl x509 -req -signkey selfsigned_$T.key -not_before 20200101000000Z -not_after 20450101000000Z
